@@ -1,6 +1,6 @@
 SPECIFICATION Spec
 CONSTANTS MaxOps = 4 MaxSnaps = 2 MaxCrashes = 1 SnapEvery = 1 KeepSnap = 2 KeepCkpt = 1 ChanCap = 2 MaxTimeouts = 1
-  Role = "single" Persistent = FALSE SafePublish = FALSE Install = FALSE AtomicRestore = TRUE InstLatestAfterSave = TRUE Mutant = ""
+  Role = "single" Persistent = FALSE SafePublish = FALSE Install = FALSE AtomicRestore = TRUE InstLatestAfterSave = TRUE PurgePromptly = TRUE Mutant = ""
 VIEW View
 CHECK_DEADLOCK FALSE
 INVARIANT AckedDurable
